@@ -105,13 +105,12 @@ Definition wstep (h : shared) (t : wthread) : option (sres wthread) :=
   let W := hW h in
   let m := hmem h in
   let d := wdata t in
-  let len := zlen d in
   let go (p : wpc) (lab : label) := Some (mkres h (w_at t p) lab None GNone false) in
   match w_pc t with
   | WStart => go WCall LStart
   | WCall => match w_prog t with [] => None | _ :: _ => go (WRdRpt (hwpt h)) (LRd HWpt) end
   | WRdRpt w1 =>
-      if free_words W w1 (hrpt h) * RB_SIZEOF_WORD <? len + RB_CHUNK_MARGIN
+      if free_words W w1 (hrpt h) * RB_SIZEOF_WORD <? zlen d + RB_CHUNK_MARGIN
       then Some (mkres h (w_ret t) (LRd HRpt) (Some (- RB_EAGAIN, [])) GNone false)
       else go WRdWpt2 (LRd HRpt)
   | WRdWpt2 => go (WStSize0 (hwpt h)) (LRd HWpt)
@@ -133,7 +132,7 @@ Definition wstep (h : shared) (t : wthread) : option (sres wthread) :=
       end
   | WRdWpt3 => go (WStSize (hwpt h)) (LRd HWpt)
   | WStSize old =>
-      Some (mkres (set_mem h (stw m old len)) (w_at t (WRdSize old)) (LWr (DW old)) None GNone (negb (inr W old)))
+      Some (mkres (set_mem h (stw m old (zlen d))) (w_at t (WRdSize old)) (LWr (DW old)) None GNone (negb (inr W old)))
   | WRdSize old => go (WStWpt old (ldw m old)) (LRd (DW old))
   | WStWpt old sz =>
       Some (mkres (set_wpt h (chunk_step W old sz)) (w_at t (WStMagic old)) (LWr HWpt) None GNone false)
@@ -141,10 +140,10 @@ Definition wstep (h : shared) (t : wthread) : option (sres wthread) :=
       let i := (old + 1) mod W in
       let h1 := set_mem h (stw m i RB_CHUNK_MAGIC) in
       match hsem h with
-      | None => Some (mkres h1 (w_ret t) (LAWr (DW i) RBC_MO_RELEASE) (Some (len, [])) (GPub d) false)
+      | None => Some (mkres h1 (w_ret t) (LAWr (DW i) RBC_MO_RELEASE) (Some (zlen d, [])) (GPub d) false)
       | Some _ => Some (mkres h1 (w_at t WPost) (LAWr (DW i) RBC_MO_RELEASE) None (GPub d) false)
       end
-  | WPost => Some (mkres (post h) (w_ret t) LPost (Some (len, [])) GNone false)
+  | WPost => Some (mkres (post h) (w_ret t) LPost (Some (zlen d, [])) GNone false)
   end.
 
 (* ------------------------------------------------------------------ reader *)
